@@ -1,5 +1,7 @@
 import ChfVerif.Lemmas.ChargingStep
 import ChfVerif.Lemmas.ChargingRecords
+import ChfVerif.Lemmas.LockDiscipline
+import ChfVerif.Gen.LockSites
 /-
   C12 — charging API contract: 201 + Location / 200 / 204; rejections (4xx) have no effect;
   recharge of a known subscriber: 204 and exactly one notification naming that rating group.
@@ -138,5 +140,12 @@ theorem C12_recharge (guard : SplitGuard) (s : State) (info ueId rgStr : Bytes) 
     (hu : findUe s.ues ueId = some ue) (huri : ue.notifyUri = true) :
     (step guard s (.recharge info)).2.status = 204 ∧ (step guard s (.recharge info)).2.notif = [(ue.supi, rg)] := by
   simp [step, recharge, hsp, hrg, hu, huri]
+
+/-- "A request that names an unknown session reference … has no effect", also next to other requests of the subscriber: the
+    look-up that decides whether a reference is known, like every other access to subscriber state a handler can reach, is made
+    while the subscriber's mutex is held (regenerated tables of harness/cmd/stateaccess.go, `decide`) - so the decision cannot be
+    taken on a session map that a create or release is changing, nor be outdated when the request acts on it. -/
+theorem C12_state_access_under_lock :
+    Chf.LockDiscipline.stateAccessOK Chf.Gen.fnFacts Chf.Gen.callFacts = true := by decide
 
 end Chf.Props.C12
